@@ -120,8 +120,45 @@ fn poly_probe() {
     }
 }
 
+/// three equal steps from exact data at x0 (first_step = max_step = h, tolerances that accept everything): the error at x0 + 3h
+/// is O(h^(p+1)) only if every step — not just the first of a run — has the advertised order
+fn three_steps(method: &str, x0: f64, h: f64) -> Option<f64> {
+    let f = Manufactured;
+    let y0 = yex(x0).to_vec();
+    let xend = x0 + 3.0 * h;
+    let mut rec = Recorder::new();
+    rec.thetas = vec![];
+    let big = 1e30;
+    let res = match method {
+        "RK4" => RK4::builder().build().solve(&f, x0, &y0, xend, h, Some(&mut rec)),
+        "RK23" => RK23::builder().first_step(h).max_step(h.abs()).build().solve(&f, x0, &y0, xend, big.into(), big.into(), Some(&mut rec)),
+        "DOPRI5" => DOPRI5::builder().first_step(h).max_step(h.abs()).build().solve(&f, x0, &y0, xend, big.into(), big.into(), Some(&mut rec)),
+        "DOP853" => DOP853::builder().first_step(h).max_step(h.abs()).build().solve(&f, x0, &y0, xend, big.into(), big.into(), Some(&mut rec)),
+        _ => return None,
+    };
+    res.ok()?;
+    if rec.cbs.len() != 4 { return None; }
+    for (k, cb) in rec.cbs.iter().enumerate().skip(1) {
+        if (cb.x - (x0 + k as f64 * h)).abs() > 1e-12 { return None; }
+    }
+    let cb = &rec.cbs[3];
+    let ex = yex(cb.x);
+    Some((0..3).map(|i| (cb.y[i] - ex[i]).abs()).fold(0.0, f64::max))
+}
+
 pub fn run(_args: &[String]) {
     poly_probe();
+    for (m, p, h0) in [("RK4", 4.0, 0.1), ("RK23", 3.0, 0.1), ("DOPRI5", 5.0, 0.2), ("DOP853", 8.0, 0.3)] {
+        for sign in [1.0, -1.0] {
+            for x0 in [0.3, 1.7] {
+                match (three_steps(m, x0, sign * h0), three_steps(m, x0, sign * h0 / 2.0)) {
+                    (Some(e1), Some(e2)) => println!("{{\"kind\":\"order3\",\"method\":\"{}\",\"p\":{},\"x0\":{},\"h\":{},\"err_h\":{},\"err_h2\":{},\"p_obs\":{}}}",
+                        m, p, x0, sign * h0, jnum(e1), jnum(e2), jnum((e1 / e2).log2() - 1.0)),
+                    _ => println!("{{\"kind\":\"order3\",\"method\":\"{}\",\"x0\":{},\"h\":{},\"skipped\":true}}", m, x0, sign * h0),
+                }
+            }
+        }
+    }
     // (method, advertised step order p, interpolant order q, base step)
     let table: [(&str, f64, f64, f64); 5] =
         [("RK4", 4.0, 3.0, 0.1), ("RK23", 3.0, 3.0, 0.1), ("DOPRI5", 5.0, 4.0, 0.2), ("DOP853", 8.0, 7.0, 0.4), ("RADAU", 5.0, 3.0, 0.1)];
